@@ -706,7 +706,10 @@ impl Ctx {
             }
             "substr" => self.substr(vals),
             "log" => {
-                self.trace.push(vals[0].to_string());
+                let line = vals[0].to_string();
+                // what is written counts towards the work budget (a loop that logs a growing accumulator is quadratic)
+                self.nodes += (line.len() as u64) / 8;
+                self.trace.push(line);
                 Res::Ok(vals[0].clone())
             }
             "var" => {
@@ -972,6 +975,11 @@ pub fn contains_poison(v: &Value) -> bool {
 }
 
 fn contains_substring(h: &str, x: &str) -> bool {
+    // the naive scan below is quadratic: for long operands (strings doubled by cat inside reduce) fall back to the
+    // standard library's search, which is part of the trusted base
+    if (h.len() as u64) * (x.len() as u64) > 4_000_000 {
+        return h.contains(x);
+    }
     // naive scan over characters, independent of str::contains
     let hc: Vec<char> = h.chars().collect();
     let xc: Vec<char> = x.chars().collect();
